@@ -19,139 +19,111 @@ Definition h256 := TFixed 32.
 Definition sig64 := TFixed 64.
 
 (* ---- block header and digest (spec: Block Format; Substrate generic::Header, DigestItem) ---- *)
-Definition engine_payload : ty := TStruct [fd "ConsensusEngineID" (TFixed 4); fd "Data" TBytes].
+Definition engine_payload : ty := Eval vm_compute in (TStruct [fd "ConsensusEngineID" (TFixed 4); fd "Data" TBytes]).
 
-Definition digest_item : ty :=
-  TEnum [ cs 0 "Other" TBytes;
+Definition digest_item : ty := Eval vm_compute in (TEnum [ cs 0 "Other" TBytes;
           cs 4 "Consensus" engine_payload;
           cs 5 "Seal" engine_payload;
           cs 6 "PreRuntime" engine_payload;
-          cs 8 "RuntimeEnvironmentUpdated" (TStruct []) ].
+          cs 8 "RuntimeEnvironmentUpdated" (TStruct []) ]).
 
 (* the DigestItem of the pinned tree: no variant 0 *)
-Definition digest_item_prefix : ty :=
-  TEnum [ cs 4 "Consensus" engine_payload;
+Definition digest_item_prefix : ty := Eval vm_compute in (TEnum [ cs 4 "Consensus" engine_payload;
           cs 5 "Seal" engine_payload;
           cs 6 "PreRuntime" engine_payload;
-          cs 8 "RuntimeEnvironmentUpdated" (TStruct []) ].
+          cs 8 "RuntimeEnvironmentUpdated" (TStruct []) ]).
 
 Definition header_of (item : ty) : ty :=
   TStruct [ fd "ParentHash" h256; fd "Number" TCompact; fd "StateRoot" h256;
             fd "ExtrinsicsRoot" h256; fd "Digest" (TVec item) ].
-Definition header : ty := header_of digest_item.
-Definition header_prefix : ty := header_of digest_item_prefix.
+Definition header : ty := Eval vm_compute in (header_of digest_item).
+Definition header_prefix : ty := Eval vm_compute in (header_of digest_item_prefix).
 
-Definition digest : ty := TVec digest_item.
+Definition digest : ty := Eval vm_compute in (TVec digest_item).
 
 (* block body: Vec<Extrinsic>, an extrinsic being an opaque Vec<u8> *)
-Definition body : ty := TVec TBytes.
+Definition body : ty := Eval vm_compute in (TVec TBytes).
 
 (* ---- BABE pre-runtime digests (spec: BABE block header digest; sp_consensus_babe::PreDigest) ---- *)
-Definition babe_primary : ty :=
-  TStruct [ fd "AuthorityIndex" u32; fd "SlotNumber" u64; fd "VRFOutput" h256; fd "VRFProof" sig64 ].
-Definition babe_secondary_plain : ty :=
-  TStruct [ fd "AuthorityIndex" u32; fd "SlotNumber" u64 ].
-Definition babe_secondary_vrf : ty :=
-  TStruct [ fd "AuthorityIndex" u32; fd "SlotNumber" u64; fd "VrfOutput" h256; fd "VrfProof" sig64 ].
-Definition babe_pre_digest : ty :=
-  TEnum [ cs 1 "BabePrimaryPreDigest" babe_primary;
+Definition babe_primary : ty := Eval vm_compute in (TStruct [ fd "AuthorityIndex" u32; fd "SlotNumber" u64; fd "VRFOutput" h256; fd "VRFProof" sig64 ]).
+Definition babe_secondary_plain : ty := Eval vm_compute in (TStruct [ fd "AuthorityIndex" u32; fd "SlotNumber" u64 ]).
+Definition babe_secondary_vrf : ty := Eval vm_compute in (TStruct [ fd "AuthorityIndex" u32; fd "SlotNumber" u64; fd "VrfOutput" h256; fd "VrfProof" sig64 ]).
+Definition babe_pre_digest : ty := Eval vm_compute in (TEnum [ cs 1 "BabePrimaryPreDigest" babe_primary;
           cs 2 "BabeSecondaryPlainPreDigest" babe_secondary_plain;
-          cs 3 "BabeSecondaryVRFPreDigest" babe_secondary_vrf ].
+          cs 3 "BabeSecondaryVRFPreDigest" babe_secondary_vrf ]).
 
 (* ---- BABE consensus messages (sp_consensus_babe::ConsensusLog) ---- *)
-Definition authority_raw : ty := TStruct [ fd "Key" h256; fd "Weight" u64 ].
-Definition next_epoch_data : ty :=
-  TStruct [ fd "Authorities" (TVec authority_raw); fd "Randomness" h256 ].
-Definition babe_on_disabled : ty := TStruct [ fd "ID" u32 ].
-Definition next_config_v1 : ty := TStruct [ fd "C1" u64; fd "C2" u64; fd "SecondarySlots" u8 ].
-Definition versioned_next_config : ty := TEnum [ cs 1 "NextConfigDataV1" next_config_v1 ].
-Definition babe_consensus_digest : ty :=
-  TEnum [ cs 1 "NextEpochData" next_epoch_data;
+Definition authority_raw : ty := Eval vm_compute in (TStruct [ fd "Key" h256; fd "Weight" u64 ]).
+Definition next_epoch_data : ty := Eval vm_compute in (TStruct [ fd "Authorities" (TVec authority_raw); fd "Randomness" h256 ]).
+Definition babe_on_disabled : ty := Eval vm_compute in (TStruct [ fd "ID" u32 ]).
+Definition next_config_v1 : ty := Eval vm_compute in (TStruct [ fd "C1" u64; fd "C2" u64; fd "SecondarySlots" u8 ]).
+Definition versioned_next_config : ty := Eval vm_compute in (TEnum [ cs 1 "NextConfigDataV1" next_config_v1 ]).
+Definition babe_consensus_digest : ty := Eval vm_compute in (TEnum [ cs 1 "NextEpochData" next_epoch_data;
           cs 2 "BABEOnDisabled" babe_on_disabled;
-          cs 3 "VersionedNextConfigData" versioned_next_config ].
+          cs 3 "VersionedNextConfigData" versioned_next_config ]).
 
 (* ---- GRANDPA consensus messages (sp_consensus_grandpa::ConsensusLog) ---- *)
-Definition grandpa_authority_raw : ty := TStruct [ fd "Key" h256; fd "ID" u64 ].
-Definition grandpa_scheduled_change : ty :=
-  TStruct [ fd "Auths" (TVec grandpa_authority_raw); fd "Delay" u32 ].
-Definition grandpa_forced_change : ty :=
-  TStruct [ fd "BestFinalizedBlock" u32; fd "Auths" (TVec grandpa_authority_raw); fd "Delay" u32 ].
-Definition grandpa_on_disabled : ty := TStruct [ fd "ID" u64 ].
-Definition grandpa_pause : ty := TStruct [ fd "Delay" u32 ].
-Definition grandpa_resume : ty := TStruct [ fd "Delay" u32 ].
-Definition grandpa_consensus_digest : ty :=
-  TEnum [ cs 1 "GrandpaScheduledChange" grandpa_scheduled_change;
+Definition grandpa_authority_raw : ty := Eval vm_compute in (TStruct [ fd "Key" h256; fd "ID" u64 ]).
+Definition grandpa_scheduled_change : ty := Eval vm_compute in (TStruct [ fd "Auths" (TVec grandpa_authority_raw); fd "Delay" u32 ]).
+Definition grandpa_forced_change : ty := Eval vm_compute in (TStruct [ fd "BestFinalizedBlock" u32; fd "Auths" (TVec grandpa_authority_raw); fd "Delay" u32 ]).
+Definition grandpa_on_disabled : ty := Eval vm_compute in (TStruct [ fd "ID" u64 ]).
+Definition grandpa_pause : ty := Eval vm_compute in (TStruct [ fd "Delay" u32 ]).
+Definition grandpa_resume : ty := Eval vm_compute in (TStruct [ fd "Delay" u32 ]).
+Definition grandpa_consensus_digest : ty := Eval vm_compute in (TEnum [ cs 1 "GrandpaScheduledChange" grandpa_scheduled_change;
           cs 2 "GrandpaForcedChange" grandpa_forced_change;
           cs 3 "GrandpaOnDisabled" grandpa_on_disabled;
           cs 4 "GrandpaPause" grandpa_pause;
-          cs 5 "GrandpaResume" grandpa_resume ].
+          cs 5 "GrandpaResume" grandpa_resume ]).
 
 (* ---- GRANDPA votes, commits, justifications (spec: GRANDPA messages) ---- *)
-Definition vote : ty := TStruct [ fd "Hash" h256; fd "Number" u32 ].
-Definition signed_vote : ty :=
-  TStruct [ fd "Vote" vote; fd "Signature" sig64; fd "AuthorityID" h256 ].
-Definition commit : ty :=
-  TStruct [ fd "Hash" h256; fd "Number" u32; fd "Precommits" (TVec signed_vote) ].
-Definition justification : ty := TStruct [ fd "Round" u64; fd "Commit" commit ].
-Definition grandpa_voters : ty := TVec (TStruct [ fd "Key" h256; fd "ID" u64 ]).
+Definition vote : ty := Eval vm_compute in (TStruct [ fd "Hash" h256; fd "Number" u32 ]).
+Definition signed_vote : ty := Eval vm_compute in (TStruct [ fd "Vote" vote; fd "Signature" sig64; fd "AuthorityID" h256 ]).
+Definition commit : ty := Eval vm_compute in (TStruct [ fd "Hash" h256; fd "Number" u32; fd "Precommits" (TVec signed_vote) ]).
+Definition justification : ty := Eval vm_compute in (TStruct [ fd "Round" u64; fd "Commit" commit ]).
+Definition grandpa_voters : ty := Eval vm_compute in (TVec (TStruct [ fd "Key" h256; fd "ID" u64 ])).
 
-Definition equivocation : ty :=
-  TStruct [ fd "RoundNumber" u64; fd "ID" h256; fd "FirstVote" vote; fd "FirstSignature" sig64;
-            fd "SecondVote" vote; fd "SecondSignature" sig64 ].
-Definition equivocation_enum : ty :=
-  TEnum [ cs 0 "PreVote" equivocation; cs 1 "PreCommit" equivocation ].
-Definition equivocation_proof : ty :=
-  TStruct [ fd "SetID" u64; fd "Equivocation" equivocation_enum ].
+Definition equivocation : ty := Eval vm_compute in (TStruct [ fd "RoundNumber" u64; fd "ID" h256; fd "FirstVote" vote; fd "FirstSignature" sig64;
+            fd "SecondVote" vote; fd "SecondSignature" sig64 ]).
+Definition equivocation_enum : ty := Eval vm_compute in (TEnum [ cs 0 "PreVote" equivocation; cs 1 "PreCommit" equivocation ]).
+Definition equivocation_proof : ty := Eval vm_compute in (TStruct [ fd "SetID" u64; fd "Equivocation" equivocation_enum ]).
 
 (* the signed payload of a vote: (message, round, set id) *)
-Definition full_vote : ty :=
-  TStruct [ fd "Stage" u8; fd "Vote" vote; fd "Round" u64; fd "SetID" u64 ].
+Definition full_vote : ty := Eval vm_compute in (TStruct [ fd "Stage" u8; fd "Vote" vote; fd "Round" u64; fd "SetID" u64 ]).
 
 (* ---- GRANDPA gossip messages (lib/grandpa/message.go) ---- *)
-Definition signed_message : ty :=
-  TStruct [ fd "Stage" u8; fd "BlockHash" h256; fd "Number" u32; fd "Signature" sig64;
-            fd "AuthorityID" h256 ].
-Definition vote_message : ty :=
-  TStruct [ fd "Round" u64; fd "SetID" u64; fd "Message" signed_message ].
-Definition auth_data : ty := TStruct [ fd "Signature" sig64; fd "AuthorityID" h256 ].
-Definition commit_message : ty :=
-  TStruct [ fd "Round" u64; fd "SetID" u64; fd "Vote" vote;
-            fd "Precommits" (TVec vote); fd "AuthData" (TVec auth_data) ].
-Definition neighbour_v1 : ty := TStruct [ fd "Round" u64; fd "SetID" u64; fd "Number" u32 ].
-Definition versioned_neighbour : ty := TEnum [ cs 1 "NeighbourPacketV1" neighbour_v1 ].
-Definition catch_up_request : ty := TStruct [ fd "Round" u64; fd "SetID" u64 ].
-Definition catch_up_response : ty :=
-  TStruct [ fd "SetID" u64; fd "Round" u64;
+Definition signed_message : ty := Eval vm_compute in (TStruct [ fd "Stage" u8; fd "BlockHash" h256; fd "Number" u32; fd "Signature" sig64;
+            fd "AuthorityID" h256 ]).
+Definition vote_message : ty := Eval vm_compute in (TStruct [ fd "Round" u64; fd "SetID" u64; fd "Message" signed_message ]).
+Definition auth_data : ty := Eval vm_compute in (TStruct [ fd "Signature" sig64; fd "AuthorityID" h256 ]).
+Definition commit_message : ty := Eval vm_compute in (TStruct [ fd "Round" u64; fd "SetID" u64; fd "Vote" vote;
+            fd "Precommits" (TVec vote); fd "AuthData" (TVec auth_data) ]).
+Definition neighbour_v1 : ty := Eval vm_compute in (TStruct [ fd "Round" u64; fd "SetID" u64; fd "Number" u32 ]).
+Definition versioned_neighbour : ty := Eval vm_compute in (TEnum [ cs 1 "NeighbourPacketV1" neighbour_v1 ]).
+Definition catch_up_request : ty := Eval vm_compute in (TStruct [ fd "Round" u64; fd "SetID" u64 ]).
+Definition catch_up_response : ty := Eval vm_compute in (TStruct [ fd "SetID" u64; fd "Round" u64;
             fd "PreVoteJustification" (TVec signed_vote);
             fd "PreCommitJustification" (TVec signed_vote);
-            fd "Hash" h256; fd "Number" u32 ].
-Definition grandpa_message : ty :=
-  TEnum [ cs 0 "VoteMessage" vote_message;
+            fd "Hash" h256; fd "Number" u32 ]).
+Definition grandpa_message : ty := Eval vm_compute in (TEnum [ cs 0 "VoteMessage" vote_message;
           cs 1 "CommitMessage" commit_message;
           cs 2 "VersionedNeighbourPacket" versioned_neighbour;
           cs 3 "CatchUpRequest" catch_up_request;
-          cs 4 "CatchUpResponse" catch_up_response ].
+          cs 4 "CatchUpResponse" catch_up_response ]).
 
 (* ---- internal/primitives/consensus/grandpa (block number u32, hash H256) ---- *)
-Definition authority_id_weight : ty := TStruct [ fd "AuthorityID" h256; fd "AuthorityWeight" u64 ].
-Definition authority_list : ty := TVec authority_id_weight.
-Definition prim_scheduled_change : ty :=
-  TStruct [ fd "NextAuthorities" authority_list; fd "Delay" u32 ].
-Definition prim_precommit : ty := TStruct [ fd "TargetHash" h256; fd "TargetNumber" u32 ].
-Definition prim_signed_precommit : ty :=
-  TStruct [ fd "Precommit" prim_precommit; fd "Signature" sig64; fd "ID" h256 ].
-Definition prim_commit : ty :=
-  TStruct [ fd "TargetHash" h256; fd "TargetNumber" u32; fd "Precommits" (TVec prim_signed_precommit) ].
+Definition authority_id_weight : ty := Eval vm_compute in (TStruct [ fd "AuthorityID" h256; fd "AuthorityWeight" u64 ]).
+Definition authority_list : ty := Eval vm_compute in (TVec authority_id_weight).
+Definition prim_scheduled_change : ty := Eval vm_compute in (TStruct [ fd "NextAuthorities" authority_list; fd "Delay" u32 ]).
+Definition prim_precommit : ty := Eval vm_compute in (TStruct [ fd "TargetHash" h256; fd "TargetNumber" u32 ]).
+Definition prim_signed_precommit : ty := Eval vm_compute in (TStruct [ fd "Precommit" prim_precommit; fd "Signature" sig64; fd "ID" h256 ]).
+Definition prim_commit : ty := Eval vm_compute in (TStruct [ fd "TargetHash" h256; fd "TargetNumber" u32; fd "Precommits" (TVec prim_signed_precommit) ]).
 (* finality-grandpa Message: 0 prevote, 1 precommit, 2 primary propose; localized payload =
    (message, round, set id) *)
-Definition prim_message : ty :=
-  TEnum [ cs 0 "Prevote" prim_precommit; cs 1 "Precommit" prim_precommit;
-          cs 2 "PrimaryPropose" prim_precommit ].
-Definition localized_payload : ty :=
-  TStruct [ fd "Message" prim_message; fd "RoundNumber" u64; fd "SetID" u64 ].
+Definition prim_message : ty := Eval vm_compute in (TEnum [ cs 0 "Prevote" prim_precommit; cs 1 "Precommit" prim_precommit;
+          cs 2 "PrimaryPropose" prim_precommit ]).
+Definition localized_payload : ty := Eval vm_compute in (TStruct [ fd "Message" prim_message; fd "RoundNumber" u64; fd "SetID" u64 ]).
 
-Definition registry : list (name * ty) :=
-  [ fd "Header" header; fd "Digest" digest; fd "Body" body;
+Definition registry : list (name * ty) := Eval vm_compute in ([ fd "Header" header; fd "Digest" digest; fd "Body" body;
     fd "BabeDigest" babe_pre_digest;
     fd "BabeConsensusDigest" babe_consensus_digest;
     fd "GrandpaConsensusDigest" grandpa_consensus_digest;
@@ -164,7 +136,7 @@ Definition registry : list (name * ty) :=
     fd "AuthorityList" authority_list;
     fd "PrimScheduledChange" prim_scheduled_change;
     fd "PrimCommit" prim_commit;
-    fd "LocalizedPayload" localized_payload ].
+    fd "LocalizedPayload" localized_payload ]).
 
 Fixpoint find_type (n : name) (r : list (name * ty)) : option ty :=
   match r with
